@@ -47,7 +47,8 @@ type c08Result struct {
 	Preempted      int               `json:"schedules_with_preemption"`
 	Outcomes       map[string]int    `json:"outcomes"`
 	Violations     []c08Viol         `json:"violations"`
-	Info           map[string]int    `json:"info,omitempty"` // informational scenarios: signature -> schedules showing it
+	Beyond         map[string]int    `json:"beyond,omitempty"` // beyond-statement observations: what -> schedules showing it
+	Info           map[string]int    `json:"info,omitempty"`   // informational scenarios: signature -> schedules showing it
 	InfoExample    map[string]string `json:"info_example,omitempty"`
 	HarnessError   string            `json:"harness_error,omitempty"`
 	MaxThreads     int               `json:"max_threads"`
@@ -59,6 +60,17 @@ func c08Check(e *c08Env, x *vsync.Execution, scen string, free bool) (sigs []str
 	add := func(sig, f string, a ...any) {
 		sigs = append(sigs, sig)
 		msgs = append(msgs, fmt.Sprintf(f, a...))
+	}
+	// note records behaviour the property statement is silent about ("beyond-statement:<what>"
+	// outcomes: part of the evidence, never a violation)
+	e.beyond = nil
+	note := func(what string) {
+		for _, b := range e.beyond {
+			if b == what {
+				return
+			}
+		}
+		e.beyond = append(e.beyond, what)
 	}
 	for _, p := range x.Panics {
 		add("c08:panic:"+scen+":"+c08PanicSite(p), "panic under schedule: %s", p)
@@ -99,6 +111,36 @@ func c08Check(e *c08Env, x *vsync.Execution, scen string, free bool) (sigs []str
 			fmt.Fprintf(&sb, "[c%d %d-%d %+v -> %+v] ", op.ClientId, op.Call, op.Return, op.Input, op.Output)
 		}
 		add("c08:not-linearizable:"+scen, "history is not linearizable w.r.t. the set model (initial state %+v): %s", init, sb.String())
+	}
+	// beyond the statement (accepted by the model, recorded): a read that succeeds although a
+	// lifecycle call had closed the store before it was invoked, and an error other than a
+	// not-found error for a key while nothing had started to close the store
+	closedAt, closingFrom := int64(-1), int64(-1)
+	for _, op := range e.hist.ops {
+		switch in := op.Input.(c08In); in.Op {
+		case "finalize", "close", "discard":
+			if closingFrom < 0 || op.Call < closingFrom {
+				closingFrom = op.Call
+			}
+			if (in.Op == "discard" || !op.Output.(c08Out).Err) && (closedAt < 0 || op.Return < closedAt) {
+				closedAt = op.Return
+			}
+		}
+	}
+	for _, op := range e.hist.ops {
+		in, out := op.Input.(c08In), op.Output.(c08Out)
+		switch in.Op {
+		case "has", "get", "size":
+			if cfg.class(in.Keys[0]) != c08Normal {
+				continue
+			}
+			if !out.Err && closedAt >= 0 && op.Call > closedAt {
+				note("read-served-by-closed-store")
+			}
+			if in.Op != "has" && out.Err && !out.NotFound && (closingFrom < 0 || op.Return < closingFrom) {
+				note("absent-key-error-is-not-a-not-found-error")
+			}
+		}
 	}
 	// listing oracle (weaker than an atomic snapshot on purpose): nothing that was never put,
 	// nothing more often than stored, and - for every listing whose AllKeysChan call succeeded
@@ -157,19 +199,35 @@ func c08Check(e *c08Env, x *vsync.Execution, scen string, free bool) (sigs []str
 		add("c08:final-finalize-error:"+scen, "finalizing after the scenario failed: %v", err)
 	} else if !e.noFile {
 		discarded, finalized := false, false
+		firstDiscard, firstFinalized := int64(-1), int64(-1)
 		for _, op := range e.hist.ops {
 			switch op.Input.(c08In).Op {
 			case "discard":
 				discarded = true
+				if firstDiscard < 0 || op.Call < firstDiscard {
+					firstDiscard = op.Call
+				}
 			case "finalize":
 				if !op.Output.(c08Out).Err {
 					finalized = true
+					if firstFinalized < 0 || op.Return < firstFinalized {
+						firstFinalized = op.Return
+					}
 				}
 			}
 		}
-		// after a Discard the file is only complete if a Finalize reported success
-		if !discarded || finalized {
-			c08CheckFile(e, file, scen, add)
+		// After a Discard the file is only complete if a Finalize reported success. A Finalize
+		// that was not over before the first Discard began may have run on the discarded store,
+		// and the result of a lifecycle call on a closed store is not specified (it may report
+		// success without doing anything): when the CARv2 header was never written, that is what
+		// happened, and there is no finalized file to judge.
+		check := !discarded || finalized
+		if discarded && finalized && !(firstFinalized < firstDiscard) && !cfg.v1 && c08HeaderUnwritten(file) {
+			check = false
+			note("finalize-on-discarded-store-reported-success")
+		}
+		if check {
+			c08CheckFile(e, file, scen, add, note)
 		}
 	}
 	if e.extra != nil {
@@ -190,12 +248,62 @@ func c08Check(e *c08Env, x *vsync.Execution, scen string, free bool) (sigs []str
 	return sigs, msgs, sb.String()
 }
 
+// c08HeaderUnwritten reports whether f is a CARv2 whose 40-byte header was never written
+// (all zero: the state before Finalize, and after a resumption cleared it).
+func c08HeaderUnwritten(f []byte) bool {
+	if !bytes.HasPrefix(f, refcar.Pragma) {
+		return false
+	}
+	for i := refcar.PragmaSize; i < refcar.PragmaSize+refcar.V2HeaderSize && i < len(f); i++ {
+		if f[i] != 0 {
+			return false
+		}
+	}
+	return true
+}
+
+// c08IndexCover is the index oracle: every record must point at the start of a section whose
+// CID carries that hash, and every key of the payload must have at least one record. How many
+// records a key that was stored several times (AllowDuplicatePuts) gets is not specified; exact
+// reports whether the index holds precisely one record per section.
+func c08IndexCover(codec uint64, got, want []refcar.IndexRecord) (problems []string, exact bool) {
+	keyOf := func(r refcar.IndexRecord) string {
+		k := recKey(codec, r)
+		return k[:strings.LastIndex(k, "@")]
+	}
+	at, wantKeys, gotKeys := map[string]bool{}, map[string]bool{}, map[string]bool{}
+	for _, r := range want {
+		at[recKey(codec, r)] = true
+		wantKeys[keyOf(r)] = true
+	}
+	for _, r := range got {
+		if !at[recKey(codec, r)] {
+			problems = append(problems, fmt.Sprintf("record %s does not point at a section with that hash", recKey(codec, r)))
+			continue
+		}
+		gotKeys[keyOf(r)] = true
+	}
+	var missing []string
+	for k := range wantKeys {
+		if !gotKeys[k] {
+			missing = append(missing, k)
+		}
+	}
+	sort.Strings(missing)
+	for _, k := range missing {
+		problems = append(problems, fmt.Sprintf("no record for %s, which is in the payload", k))
+	}
+	return problems, recMultiset(codec, got) == recMultiset(codec, want)
+}
+
 // c08CheckFile judges the output of a finished session: strict decode, version, roots, the
 // section multiset against the puts of the history, and the index against the payload.
-func c08CheckFile(e *c08Env, file []byte, scen string, add func(sig, f string, a ...any)) {
+func c08CheckFile(e *c08Env, file []byte, scen string, add func(sig, f string, a ...any), note func(what string)) {
 	cfg := e.cfg
-	// expected number of sections per key: [lo, hi]
-	lo, hi := map[string]int{}, map[string]int{}
+	// expected number of sections per key: [lo, hi]; puts = successful Puts of the key.
+	// With AllowDuplicatePuts the statement fixes no number of copies: at least one per key that
+	// was put successfully, at most one per Put that can have written it.
+	lo, hi, puts := map[string]int{}, map[string]int{}, map[string]int{}
 	written := map[string]bool{} // block names a put may legitimately have written
 	stored := func(n string, certain bool) {
 		if cfg.class(n) != c08Normal {
@@ -211,7 +319,8 @@ func c08CheckFile(e *c08Env, file []byte, scen string, add func(sig, f string, a
 			return
 		}
 		if certain {
-			lo[k]++
+			lo[k] = 1
+			puts[k]++
 		}
 		hi[k]++
 	}
@@ -278,6 +387,8 @@ func c08CheckFile(e *c08Env, file []byte, scen string, add func(sig, f string, a
 		switch {
 		case cnt[k] < lo[k]:
 			add("c08:final-missing:"+scen, "final file holds block %s %d times; Puts that returned success require %d", k, cnt[k], lo[k])
+		case !cfg.dedup && cnt[k] < puts[k]:
+			note("allow-duplicate-puts-fewer-copies-than-puts")
 		case cnt[k] > hi[k] && cfg.dedup:
 			add("c08:final-duplicate:"+scen, "final file holds block %s %d times with de-duplication on", k, cnt[k])
 		case cnt[k] > hi[k]:
@@ -287,8 +398,11 @@ func c08CheckFile(e *c08Env, file []byte, scen string, add func(sig, f string, a
 	if fl.Version == 2 {
 		if !fl.HasIndex {
 			add("c08:final-index:"+scen, "finalized CARv2 has no index")
-		} else if got, want := recMultiset(fl.IndexCodec, fl.Index), recMultiset(fl.IndexCodec, refcar.RecordsOf(fl.Payload, cfg.storeID)); got != want {
-			add("c08:final-index:"+scen, "index does not resolve exactly the sections of the payload: got {%s} want {%s}", got, want)
+		} else if problems, exact := c08IndexCover(fl.IndexCodec, fl.Index, refcar.RecordsOf(fl.Payload, cfg.storeID)); len(problems) > 0 {
+			add("c08:final-index:"+scen, "index does not resolve the sections of the payload: %s (index {%s}, sections {%s})", strings.Join(problems, "; "),
+				recMultiset(fl.IndexCodec, fl.Index), recMultiset(fl.IndexCodec, refcar.RecordsOf(fl.Payload, cfg.storeID)))
+		} else if !exact {
+			note("index-not-one-record-per-section")
 		}
 	}
 }
@@ -307,15 +421,15 @@ func c08PanicSite(p string) string {
 }
 
 // c08RunOne executes one schedule prefix on a fresh instance.
-func c08RunOne(sc *c08Scenario, o drv.Opts, dir string, prefix []int) (*vsync.Execution, []string, []string, string) {
+func c08RunOne(sc *c08Scenario, o drv.Opts, dir string, prefix []int) (*vsync.Execution, []string, []string, string, []string) {
 	e := sc.New(dir, o)
 	defer e.cleanup()
 	x := vsync.Run(prefix, e.names, e.bodies)
 	if x.Diverged != "" {
-		return x, nil, nil, ""
+		return x, nil, nil, "", nil
 	}
 	sigs, msgs, outcome := c08Check(e, x, sc.Name, false)
-	return x, sigs, msgs, outcome
+	return x, sigs, msgs, outcome, e.beyond
 }
 
 func preemptionsBefore(x *vsync.Execution, i int) int {
@@ -375,12 +489,12 @@ func C08ExploreMain(arg string) int {
 		}
 	}
 	if cs.Schedule != nil {
-		x, sigs, msgs, _ := c08RunOne(sc, cs.Opts, dir, cs.Schedule)
+		x, sigs, msgs, _, _ := c08RunOne(sc, cs.Opts, dir, cs.Schedule)
 		if x.Diverged != "" {
 			res.HarnessError = x.Diverged
 		}
 		// replay twice: identical observations or it is a harness determinism error
-		x2, sigs2, _, _ := c08RunOne(sc, cs.Opts, dir, cs.Schedule)
+		x2, sigs2, _, _, _ := c08RunOne(sc, cs.Opts, dir, cs.Schedule)
 		if fmt.Sprint(x.Choices) != fmt.Sprint(x2.Choices) || fmt.Sprint(sigs) != fmt.Sprint(sigs2) {
 			res.HarnessError = "replaying the same schedule twice gave different observations"
 		}
@@ -404,6 +518,7 @@ func C08ExploreMain(arg string) int {
 		// each bound re-explores the smaller ones; counts are those of the last bound
 		res.Schedules, res.Points, res.Preempted = 0, 0, 0
 		res.Outcomes = map[string]int{}
+		res.Beyond = nil
 		if res.Info != nil {
 			res.Info = map[string]int{}
 		}
@@ -418,13 +533,19 @@ func C08ExploreMain(arg string) int {
 				stop = true
 				return
 			}
-			x, sigs, msgs, outcome := c08RunOne(sc, cs.Opts, dir, prefix)
+			x, sigs, msgs, outcome, beyond := c08RunOne(sc, cs.Opts, dir, prefix)
 			if x.Diverged != "" {
 				res.HarnessError = x.Diverged
 				stop = true
 				return
 			}
 			res.Schedules++
+			for _, b := range beyond {
+				if res.Beyond == nil {
+					res.Beyond = map[string]int{}
+				}
+				res.Beyond[b]++
+			}
 			res.Points += len(x.Points)
 			if preemptionsBefore(x, len(x.Points)) > 0 {
 				res.Preempted++
@@ -563,6 +684,11 @@ func runC08(c any, x *kit.Ctx) {
 		x.Outcome(cs.Scenario + ":" + o)
 		x.Nontrivial(fmt.Sprintf("%s|%+v|%s", cs.Scenario, cs.Opts, o))
 	}
+	for what, n := range res.Beyond {
+		// behaviour the statement is silent about: part of the evidence, never a violation
+		x.Outcome("beyond-statement:" + what)
+		x.Count("beyond_statement_schedules:"+what, n)
+	}
 	for sig, n := range res.Info {
 		// informational scenario (outside the property statement): reported, never a violation
 		x.Count("informational_schedules:"+sig, n)
@@ -603,6 +729,10 @@ func c08RunRace(cs C08Case, x *kit.Ctx, arg string) {
 		return
 	}
 	x.Count("race_pass_runs", res.Runs)
+	for what, n := range res.Beyond {
+		x.Outcome("beyond-statement:" + what)
+		x.Count("beyond_statement_free_runs:"+what, n)
+	}
 	x.Count("race_pass_histories_undecided", res.Undecided)
 	if res.Slow != "" {
 		x.Note("race complement slow "+cs.Scenario, res.Slow)
@@ -660,10 +790,11 @@ func c08RunRace(cs C08Case, x *kit.Ctx, arg string) {
 }
 
 type c08FreeResult struct {
-	Runs       int       `json:"runs"`
-	Undecided  int       `json:"undecided"`
-	Violations []c08Viol `json:"violations"`
-	Slow       string    `json:"slow,omitempty"`
+	Runs       int            `json:"runs"`
+	Undecided  int            `json:"undecided"`
+	Violations []c08Viol      `json:"violations"`
+	Slow       string         `json:"slow,omitempty"`
+	Beyond     map[string]int `json:"beyond,omitempty"`
 }
 
 // c08HangTimeout is NOT a performance oracle: a run takes microseconds; after this long the
@@ -783,6 +914,12 @@ func C08RaceMain(arg string) int {
 		if outcome == "lin-undecided" {
 			res.Undecided++
 		}
+		for _, b := range e.beyond {
+			if res.Beyond == nil {
+				res.Beyond = map[string]int{}
+			}
+			res.Beyond[b]++
+		}
 		for i, s := range sigs {
 			if !seen[s] {
 				seen[s] = true
@@ -872,9 +1009,9 @@ func init() {
 		Setup:             c08Setup,
 		SamplingSigPrefix: c08FreeSig,
 		Decode:            kit.DecodeAs[C08Case],
-		Rule: "stateless exploration of thread interleavings of the REAL blockstore/storage/deferred code under a controlled scheduler: the current sources are mechanically rewritten (sync -> shim, go -> scheduler threads, select -> modelled channel operation, accesses of index/writer objects -> happens-before hooks; every other non-test file of the go-car v2 module is scanned and the rewrite refuses goroutines, channels, select, sync and sync/atomic outside the rewritten files); " +
+		Rule: "stateless exploration of thread interleavings of the REAL blockstore/storage/deferred code under a controlled scheduler: the current sources are mechanically rewritten (sync -> shim, go -> scheduler threads, send-or-done select -> modelled channel operation, done-or-default select -> modelled poll, accesses of index/writer objects -> happens-before hooks, store-state hooks at the first mention of the typestate flag (or after the first lock call) whose kind is read in a field-assignment-free section under a read lock, a listing-goroutine hook when the goroutine can reach the store; every other non-test file of the go-car v2 module is scanned and the rewrite refuses goroutines, channels, select, sync and sync/atomic outside the rewritten files); " +
 			"every schedule of 32 scenarios (2-4 threads, 1-3 calls each with a scheduling point between the calls of a thread; colliding keys a/a', 3-4 concurrent writers, batches, listing concurrent with puts, finalize/discard/close concurrent with readers and with each other, identity CIDs with StoreIdentityCIDs on/off, a batch refused by MaxIndexCidSize) over every writable front end (blockstore OpenReadWrite new / resumed / OpenReadWriteFile, storage NewReadableWritable / OpenReadableWritable resumed / NewWritable over a plain io.Writer, deferred writer for a path / for a stream) plus read-only views (NewReadOnly, OpenReadOnly with mmap) x the configuration matrix {dedup, AllowDuplicatePuts, UseWholeCIDs, WriteAsCarV1} (4 single-option configurations; thorough: +3 option pairs for the 8 scenarios with colliding puts; stream front ends: the CARv1 ones; identity scenarios: StoreIdentityCIDs x {dup, v1, whole}) is enumerated depth-first with iterative pre-emption bounding (0,1,2; thorough up to 6 or the execution cap, whichever comes first, the completed bound is reported per scenario); " +
-			"per schedule: no panic, no deadlock, vector-clock race check, porcupine linearizability w.r.t. a nondeterministic set model that includes the AllKeysChan call itself (error only if closed), Roots content, not-found errors and the lifecycle; listing oracle (nothing never put, nothing more often than put, and every successful uncancelled listing holds every key whose Put returned before the call, whatever is closed meanwhile); final output: strict decode, version = WriteAsCarV1, roots, section multiset = exactly the successful puts (one per distinct key with de-duplication - by whole CID when UseWholeCIDs -, one per successful put with AllowDuplicatePuts, no section of a put that returned an error), index records = records derived from the payload; " +
+			"per schedule: no panic, no deadlock, vector-clock race check, porcupine linearizability w.r.t. a nondeterministic set model that includes the AllKeysChan call itself (error only if closed), Roots content and the lifecycle (a read of a closed store may fail or be answered correctly, an absent key is reported by any error); listing oracle (nothing never put, nothing more often than put, and every successful uncancelled listing holds every key whose Put returned before the call, whatever is closed meanwhile); final output: strict decode, version = WriteAsCarV1, roots, section multiset = exactly the successful puts (one per distinct key with de-duplication - by whole CID when UseWholeCIDs -, with AllowDuplicatePuts at least one per key put successfully and at most one per put that can have written it, no section of a put that returned an error), index: every record points at the start of a section with that hash and every key of the payload has a record; recorded as beyond-statement outcomes, never violations: read-served-by-closed-store, absent-key-error-is-not-a-not-found-error, allow-duplicate-puts-fewer-copies-than-puts, index-not-one-record-per-section, finalize-on-discarded-store-reported-success (a Finalize not over before the first Discard began, CARv2 header never written: no finalized file to judge); " +
 			"2 informational scenarios outside the statement (consumer of ReadOnly.AllKeysChan calling Get while Close is pending; DeferredCarWriter.OnPut concurrent with Put) are reported as counts, never as violations; " +
 			"states = schedules executed; non-trivial = distinct (scenario, configuration, observable outcome); a free-running -race pass of the same bodies (2-16 goroutines, scenario x reduced configuration matrix) is judged by the race detector and by the same oracles (panic, hang = every unfinished goroutine blocked on a lock/channel in a goroutine dump, linearizability with a 2 s search limit, listing, final output); it is reported separately (race_pass_runs) and is sampling, not the deciding step",
 		Bound: func(tier string) map[string]any {
@@ -884,7 +1021,7 @@ func init() {
 			return map[string]any{"preemption_bound": 2, "threads": "2-4 (+ goroutines spawned by AllKeysChan)", "scenarios": len(c08Scenarios), "configurations_per_scenario": "4 (S9: 3, S21: 2, stream: 3, identity: 4, MaxIndexCidSize: 3, read-only: 2 or 1)", "execution_cap_per_scenario": 250000, "race_pass_runs_per_case": 150}
 		},
 		Assumptions: []string{"scheduling points at lock acquisition, channel operations, goroutine start and explicit harness yields (between the calls of one thread, before a cancellation); unsynchronised accesses to memory that is not hooked are only seen by the -race complement", "Go memory model weak-memory effects below sync operations are not modelled", "2..16 goroutines are explored exhaustively only for 2-4 threads; more appear only in the sampling -race complement",
-			"not specified, hence any result accepted: the result of a lifecycle call on an already closed store (the first one must succeed), Roots and identity-CID queries on a closed store, which prefix of a batch a failed PutMany stored, AllKeysChan on a closed ReadOnly",
+			"not specified, hence any result accepted: the result of a lifecycle call on an already closed store (the first one must succeed), Roots and identity-CID queries on a closed store, which prefix of a batch a failed PutMany stored, AllKeysChan on a closed ReadOnly, whether Has/Get/GetSize of a closed store fail or still answer (correctly), which error reports an absent key, the number of copies (>= 1, <= puts) and of index records (>= 1 per key) of a block put several times with AllowDuplicatePuts",
 			"the hang verdict of the -race complement needs 60 s without progress AND a goroutine dump in which every unfinished body is blocked on a lock or channel; a slow machine alone is never a violation"},
 		Parallel: 0,
 	})
